@@ -676,3 +676,39 @@ Proof.
   { exfalso. apply map_nil_iff in EY. apply expand_nil_iff in EY. discriminate. }
   rewrite <- EX, <- EY, !qmean_fst_expand. reflexivity.
 Qed.
+
+(* ---------------------------------------------------------------- histories: every compute() returns the spec of the rows so far *)
+Lemma expected_is_spec_history {St R O} (zero : St) (plus : St -> St -> St) (contrib : R -> St) (comp : St -> O) (spec : list R -> O) :
+  (forall seen, comp (upd St R zero plus contrib zero seen) = spec seen) ->
+  forall h seen, expected_outputs St R O zero plus contrib comp seen h = spec_history spec seen h.
+Proof.
+  intros Hs h. induction h as [|[b|] h IH]; intros seen; cbn; [reflexivity|apply IH|]. rewrite Hs, IH. reflexivity.
+Qed.
+
+Lemma cpa_is_pearson_all (l : list obs) : cpa_comp (cpa_acc l) = pearson l.
+Proof. destruct l as [|o l]; [reflexivity|]. apply cpa_is_pearson_thm. discriminate. Qed.
+
+Lemma cpa_alt_scaled_all (l : list obs) : cpa_alt_comp (cpa_acc l) = option_map (scale3 (qlen l)) (pearson l).
+Proof. destruct l as [|o l]; [reflexivity|]. apply cpa_alt_scaled. discriminate. Qed.
+
+Theorem cpa_history_thm (h : list (op obs)) :
+  snd (run cst obs (option triple) cst_zero cst_plus cpa_contrib cpa_comp cst_zero h) = spec_history pearson [] h.
+Proof.
+  rewrite (history_outputs0 _ _ _ cst_zero cst_plus cpa_contrib cpa_comp cst_plus_assoc cst_plus_zero_r cst_plus_zero_l).
+  apply expected_is_spec_history. exact cpa_is_pearson_all.
+Qed.
+
+Theorem cpa_alt_history_thm (h : list (op obs)) :
+  snd (run cst obs (option triple) cst_zero cst_plus cpa_contrib cpa_alt_comp cst_zero h)
+  = spec_history (fun l => option_map (scale3 (qlen l)) (pearson l)) [] h.
+Proof.
+  rewrite (history_outputs0 _ _ _ cst_zero cst_plus cpa_contrib cpa_alt_comp cst_plus_assoc cst_plus_zero_r cst_plus_zero_l).
+  apply expected_is_spec_history. exact cpa_alt_scaled_all.
+Qed.
+
+Theorem dpa_history_thm (h : list (op dobs)) :
+  snd (run dst dobs (option Qc) dst_zero dst_plus dpa_contrib dpa_comp dst_zero h) = spec_history dpa_spec [] h.
+Proof.
+  rewrite (history_outputs0 _ _ _ dst_zero dst_plus dpa_contrib dpa_comp dst_plus_assoc dst_plus_zero_r dst_plus_zero_l).
+  apply expected_is_spec_history. exact dpa_is_mean_difference_thm.
+Qed.
